@@ -218,7 +218,7 @@ fn grow(r: &RBox, rel: f64) -> RBox {
 
 pub fn run(tier: Tier) -> Report {
     let rep = Report::new("C08", tier);
-    rep.set_rule("[also: area of the polygon returned by the public method a.sutherland_hodgman_clip(b) for every pair] box pairs = centre offsets on a dyadic lattice (quick 21x21 step 0.5, thorough 41x41 step 0.25) x (w,h) in sizes^2 for both boxes x angle menu for both boxes, plus identical / nested / edge-sharing / touching families, plus the same pairs far from the origin (1e4) ; every pair: intersection area and IoU against an independent f64 convex clipper (closed form when axis-aligned), range, symmetry, identity, absent iff disjoint, too_far soundness, joint translation / rotation invariance, axis-aligned closed form. Non-trivial = reference intersection positive by margin.");
+    rep.set_rule("[also: area of the polygon returned by the public method a.sutherland_hodgman_clip(b) for every pair] box pairs = centre offsets on a dyadic lattice (quick 21x21 step 0.5, thorough 41x41 step 0.25) x (w,h) in sizes^2 for both boxes x angle menu for both boxes, plus identical / nested / edge-sharing / touching families, plus the same pairs far from the origin (1e4), plus 400 pairs x 36 preparations in which a box had its polygon generated (gen_vertices) and was then moved / turned / resized in place or cloned (must equal freshly constructed boxes bit for bit); every pair: intersection area and IoU against an independent f64 convex clipper (closed form when axis-aligned), range, symmetry, identity, absent iff disjoint, too_far soundness, joint translation / rotation invariance, axis-aligned closed form. Non-trivial = reference intersection positive by margin.");
     rep.assume("reference clipper engine/src/geom.rs; overlap decisions asserted only when the reference area exceeds 1e-6 of the smaller box");
     let ctx = Ctx { rep: &rep, evals: AtomicU64::new(0), nontrivial: AtomicU64::new(0), undecided: AtomicU64::new(0) };
     let angles: Vec<Option<f32>> = {
@@ -305,6 +305,91 @@ pub fn run(tier: Tier) -> Report {
                 }
             }
         }
+    }
+    // prepared-then-changed boxes: a box whose polygon was generated (gen_vertices) and whose geometry was
+    // changed in place afterwards (public fields, rotate_mut), or a clone of such a box, must intersect
+    // exactly like a freshly constructed box with the same fields
+    {
+        let prep = |t: &Universal2DBox, how: usize| -> Universal2DBox {
+            let fresh = || Universal2DBox::new_with_confidence(t.xc, t.yc, t.angle, t.aspect, t.height, t.confidence);
+            match how {
+                0 => fresh(),
+                1 | 4 => {
+                    let mut b = Universal2DBox::new(t.xc + 3.0, t.yc - 2.0, Some(t.angle.unwrap_or(0.0) + 0.1), t.aspect, t.height);
+                    b.gen_vertices();
+                    b.xc = t.xc;
+                    b.yc = t.yc;
+                    b.angle = t.angle;
+                    if how == 4 {
+                        b.clone()
+                    } else {
+                        b
+                    }
+                }
+                2 => {
+                    let mut b = Universal2DBox::new(t.xc, t.yc, Some(t.angle.unwrap_or(0.0) + 0.7), t.aspect, t.height);
+                    b.gen_vertices();
+                    match t.angle {
+                        Some(a) => b.rotate_mut(a),
+                        None => b.angle = None,
+                    }
+                    b
+                }
+                3 => {
+                    let mut b = Universal2DBox::new(t.xc, t.yc, Some(t.angle.unwrap_or(0.0) + 1e-3), t.aspect * 0.5, t.height * 2.0);
+                    b.gen_vertices();
+                    b.aspect = t.aspect;
+                    b.height = t.height;
+                    b.angle = t.angle;
+                    b
+                }
+                _ => {
+                    let mut b = fresh();
+                    b.gen_vertices();
+                    b
+                }
+            }
+        };
+        let pangles: Vec<Option<f32>> = vec![None, Some(0.0), Some(PI / 6.0), Some(-PI / 3.0), Some(PI / 2.0)];
+        let psizes: Vec<(f32, f32)> = vec![(2.0, 1.0), (1.0, 5.0)];
+        let poffs: Vec<(f32, f32)> = vec![(0.0, 0.0), (0.5, 0.5), (1.5, 0.0), (4.0, 4.0)];
+        let mut n = 0u64;
+        for &aa in &pangles {
+            for &(aw, ah) in &psizes {
+                for &ba in &pangles {
+                    for &(bw, bh) in &psizes {
+                        for &(ox, oy) in &poffs {
+                            let (ta, tb) = (mkbox(10.0, -4.0, aa, aw, ah), mkbox(10.0 + ox, -4.0 + oy, ba, bw, bh));
+                            let bits = |x: Option<f32>| x.map(f32::to_bits);
+                            let base_i = Universal2DBox::intersection(&ta, &tb);
+                            let base_iou = Universal2DBox::calculate_metric_object(&Some(&ta), &Some(&tb));
+                            let base_far = Universal2DBox::too_far(&ta, &tb);
+                            for ha in 0..6usize {
+                                for hb in 0..6usize {
+                                    let (a, b) = (prep(&ta, ha), prep(&tb, hb));
+                                    n += 1;
+                                    let i = Universal2DBox::intersection(&a, &b);
+                                    let iou = Universal2DBox::calculate_metric_object(&Some(&a), &Some(&b));
+                                    let far = Universal2DBox::too_far(&a, &b);
+                                    let va = VisualObservationAttributes::new(1.0, a.clone());
+                                    let vb = VisualObservationAttributes::new(1.0, b.clone());
+                                    let viou = VisualObservationAttributes::calculate_metric_object(&Some(&va), &Some(&vb));
+                                    if i.to_bits() != base_i.to_bits() || bits(iou) != bits(base_iou) || far != base_far || bits(viou) != bits(base_iou) {
+                                        rep.violation(Violation {
+                                            key: "intersection/prepared-then-changed-box".into(),
+                                            what: format!("a box whose polygon was generated before its geometry was changed in place (preparation {ha} / {hb}; 1 moved, 2 turned, 3 resized, 4 clone of a moved one, 5 generated and left alone): intersection {i} IoU {iou:?} / {viou:?} too_far {far}, freshly constructed boxes with the same fields: {base_i} {base_iou:?} {base_far}"),
+                                            replay: json!({"a":bj(&ta),"b":bj(&tb),"preparation":[ha,hb]}),
+                                        });
+                                    }
+                                }
+                            }
+                        }
+                    }
+                }
+            }
+        }
+        ctx.evals.fetch_add(n, Ordering::Relaxed);
+        rep.extra("prepared_then_changed_pairs", json!(n));
     }
     let e = ctx.evals.load(Ordering::Relaxed);
     rep.add(e, e, e, e);
